@@ -37,12 +37,31 @@ func doCache(spec string) (out string) {
 	}()
 	i := strings.IndexByte(spec, ':')
 	capacity, _ := strconv.Atoi(spec[:i])
-	c := xpath.VerifNewCache(demoLoad, capacity)
+	// the loader counts its runs: a failed load is never remembered (every failing get runs the
+	// loader), and a get that does not run the loader returns a value loaded successfully before
+	loads := 0
+	loaded := map[int]bool{}
+	c := xpath.VerifNewCache(func(key interface{}) (interface{}, error) {
+		loads++
+		return demoLoad(key)
+	}, capacity)
 	var parts []string
 	if spec[i+1:] != "" {
 		for _, ks := range strings.Split(spec[i+1:], ",") {
 			k, _ := strconv.Atoi(ks)
+			before := loads
 			v, err := c.Get(k)
+			switch {
+			case err != nil && loads != before+1:
+				return "E:mismatch:failed-load-answered-without-running-the-loader"
+			case err == nil && loads == before && !loaded[k]:
+				return "E:mismatch:value-returned-without-any-successful-load"
+			case loads > before+1:
+				return "E:mismatch:loader-ran-more-than-once-in-one-get"
+			}
+			if err == nil {
+				loaded[k] = true
+			}
 			n, _, reset := c.Stats()
 			val := "E"
 			if err == nil {
